@@ -14,6 +14,8 @@
 #include <vector>
 #include <limits>
 #include <map>
+#include <thread>
+#include <atomic>
 #include <tapkee/utils/fibonacci_heap.hpp>
 
 using namespace tapkee;
@@ -202,6 +204,80 @@ int main()
             printf("AEND %d %d %d\n", maxrank, h->dn(), bad ? 1 : 0);
             fflush(stdout);
             delete h; h = NULL;
+            continue;
+        }
+        if (cmd == "P")
+        {
+            // P threads cap len seed reps: `threads` heaps, each owned by ONE thread (the way
+            // compute_shortest_distances_matrix uses the heap inside its parallel region), all running at the same
+            // time.  Every thread drives its own heap through a deterministic pseudo-random history (LCG seeded with
+            // seed + thread id) and compares each public output with its own std::map reference.  A heap that keeps
+            // state outside its own arrays (static / shared scratch) is disturbed by the other heaps.
+            int threads, cap, len, reps; unsigned seed;
+            is >> threads >> cap >> len >> seed >> reps;
+            printf("C %ld\n", hist++);
+            std::vector<std::string> verdict(threads);
+            std::atomic<int> ready(0);
+            auto body = [&](int t) {
+                ready++;
+                while (ready.load() < threads) { }
+                for (int rep = 0; rep < reps && verdict[t].empty(); rep++)
+                {
+                    probe_heap hp(cap);
+                    std::map<int, long long> ref;
+                    unsigned rng = seed + 7919u * (unsigned)t + 104729u * (unsigned)rep;
+                    auto next = [&]() { rng = rng * 1103515245u + 12345u; return (rng >> 8) & 0xffffffu; };
+                    for (int n = 0; n < len && verdict[t].empty(); n++)
+                    {
+                        unsigned what = next() % 16u;
+                        std::ostringstream os;
+                        if (what < 7u)
+                        {
+                            int i = (int)(next() % (unsigned)cap); long long k = (long long)(next() % 1000u);
+                            hp.insert(i, tokey(k));
+                            if (!ref.count(i)) ref[i] = k;
+                        }
+                        else if (what < 12u)
+                        {
+                            int i = (int)(next() % (unsigned)cap); long long k = (long long)(next() % 1000u);
+                            ScalarType dk = tokey(k); hp.decrease_key(i, dk);
+                            if (ref.count(i) && k <= ref[i]) ref[i] = k;
+                        }
+                        else
+                        {
+                            ScalarType key = -12345; int r = hp.extract_min(key);
+                            if (ref.empty()) { if (r != -1) os << "extract on empty heap returned " << r; }
+                            else
+                            {
+                                long long m = ref.begin()->second;
+                                for (auto& kv : ref) if (kv.second < m) m = kv.second;
+                                if (r == -1 || !ref.count(r) || ref[r] != fromkey(key) || fromkey(key) != m)
+                                    os << "extract returned " << r << ":" << fromkey(key) << ", minimum is " << m;
+                                if (r != -1) ref.erase(r);
+                            }
+                        }
+                        if (os.str().empty() && hp.get_num_nodes() != (int)ref.size())
+                            os << "size " << hp.get_num_nodes() << " vs " << ref.size();
+                        if (!os.str().empty())
+                        {
+                            std::ostringstream v; v << "thread " << t << " rep " << rep << " op " << n << ": " << os.str();
+                            verdict[t] = v.str();
+                        }
+                    }
+                    if (!verdict[t].empty())
+                    {
+                        // the heap may be corrupted (foreign nodes linked in): report and leave without destructors
+                        printf("V %s\n", verdict[t].c_str());
+                        fflush(stdout);
+                        _Exit(3);
+                    }
+                }
+            };
+            std::vector<std::thread> pool;
+            for (int t = 0; t < threads; t++) pool.emplace_back(body, t);
+            for (auto& th : pool) th.join();
+            printf("PEND %d\n", threads);
+            fflush(stdout);
             continue;
         }
         if (h == NULL) continue;
